@@ -8,11 +8,14 @@
    task and of the decision — which is the shape of Model/TaskSem.task_sem (it takes no schedule) and is checked against the
    real runner for every task of every co-simulated run. Since task_sem also gives the events of the task, every task puts
    the same events on the queue in all runs.
-   What is NOT proved (partial): that the report writer turns every dependency-respecting interleaving of those per-task
-   event lists into the same rank-sorted report; the check compares the N-thread and 1-thread reports on every run. *)
+   The writer half (module WriterLevel below, Proofs/WriterOrderP.v): the report is invariant under swapping adjacent
+   independent events and under renaming / merging of thread identifiers.
+   What is NOT proved (partial): the composition of the two halves — that the N-thread stream and the 1-thread stream of one
+   project are related by such swaps and such a renaming; the check compares the N-thread and 1-thread reports on every run. *)
 From Coq Require Import List Arith Bool.
 Import ListNotations.
 From LCC Require Import Base.Util Model.Proj Model.Sched Model.Fixture Model.TaskSem Proofs.SchedP Proofs.DeterminismP.
+From LCC Require Model.Report Model.Events Model.Writer Proofs.WriterOrderP.
 
 Theorem C05_results_schedule_independent : forall g rk (W : wf g rk) (sem : nat -> mode -> tres) n1 n2 ms1 ms2 s1 s2,
   1 <= n1 -> 1 <= n2 -> quiet ms1 -> quiet ms2 ->
@@ -47,3 +50,43 @@ Example C05_witness :
   (exists s2, run g 3 false (init g 3) ms2 = Some s2 /\ result_of s2 2 = Some (ResSkipped (Some (RTaskFailed 1)))) /\
   quiet ms1 /\ quiet ms2.
 Proof. repeat split; try (eexists; split; vm_compute; reflexivity); vm_compute; reflexivity. Qed.
+
+(* ---- the report writer (Model/Writer.v = reporting/writer.py ReportWriter, tied to the code by C18's correspondence) ----
+   The writer half of "N threads = 1 thread": the report the writer builds does not depend on how the event lists of
+   independent tasks are interleaved, nor on which identifiers the worker threads happen to have.
+   [indep] (executable, symmetric): two events are independent when they touch different things — different results
+   (and, for step / log events, different threads), different suites, a new child and anything outside its subtree, two new
+   children with different paths (also of the same parent: insertion order differs, the rank-sorted report does not).
+   [aligned] : the open step of the emitting thread belongs to the result the event names (what C06/C07 give for a run).
+   [keys_distinct] : sibling suites have distinct ranks and the tests of a suite distinct (rank, position) keys. *)
+Module WriterLevel.
+Import Report Events Writer WriterOrderP.
+
+(* two adjacent independent events may be applied in either order: same writer state up to the insertion order of children *)
+Theorem C05_writer_independent_events_commute : forall w e1 e2 w1 w12,
+  indep e1 e2 = true -> aligned w e1 -> aligned w1 e2 ->
+  apply w e1 = Ok w1 -> apply w1 e2 = Ok w12 ->
+  exists w2 w21, apply w e2 = Ok w2 /\ apply w2 e1 = Ok w21 /\ wequiv w12 w21 /\ aligned w e2 /\ aligned w2 e1.
+Proof. exact apply_swap. Qed.
+Print Assumptions C05_writer_independent_events_commute.
+
+(* any stream obtained by repeatedly swapping adjacent independent events yields the same report (normal form) *)
+Theorem C05_report_invariant_under_reordering : forall s1 s2 w1, trace_equiv s1 s2 ->
+  apply_all init_wstate s1 = Ok w1 -> all_aligned init_wstate s1 -> keys_distinct w1 ->
+  aggregate s1 = aggregate s2.
+Proof. exact aggregate_trace_equiv_report. Qed.
+Print Assumptions C05_report_invariant_under_reordering.
+
+(* thread identifiers do not matter: renaming them injectively gives the same report ... *)
+Theorem C05_report_invariant_under_thread_renaming : forall f s w,
+  (forall a b, In a (threads s) -> In b (threads s) -> f a = f b -> a = b) ->
+  apply_all init_wstate s = Ok w -> aggregate (map (rename f) s) = aggregate s.
+Proof. exact aggregate_rename_report. Qed.
+Print Assumptions C05_report_invariant_under_thread_renaming.
+
+(* ... and threads that never have a step open at the same time may even be merged into one (N workers -> 1 worker) *)
+Theorem C05_report_invariant_under_thread_merging : forall f s w, merge_ok f [] s -> apply_all init_wstate s = Ok w ->
+  exists w', apply_all init_wstate (map (rename f) s) = Ok w' /\ normalize w' = normalize w.
+Proof. exact aggregate_rename_merge. Qed.
+Print Assumptions C05_report_invariant_under_thread_merging.
+End WriterLevel.
